@@ -214,9 +214,32 @@ class AppCfgMgr:
             _LOGGER.debug('Inactive in deleted event handler.')
             return
 
+        elif self._runs_manifest(instance_name, event_file):
+            # The instance was placed again before this event was handled
+            # and what is running was configured from the new manifest.
+            _LOGGER.info('Stale deleted event on %r', instance_name)
+            return
+
         else:
             self._terminate(instance_name)
             self._refresh_supervisor()
+
+    def _runs_manifest(self, instance_name, event_file):
+        """Check if the running container was configured from the event file
+        as it exists now.
+
+        :returns ``bool``:
+            ``False`` if the event file or the running link does not exist or
+            if the link points to another generation of the instance.
+        """
+        try:
+            container = appcfg.eventfile_unique_name(event_file)
+        except OSError:
+            # The event file is gone.
+            return False
+
+        running_link = os.path.join(self.tm_env.running_dir, instance_name)
+        return self._linked_container(running_link) == container
 
     def _first_sync(self):
         """Bring the appcfgmgr into active mode and do a first sync.
